@@ -9,7 +9,9 @@ downstream module sees the type arguments of `a.m` swapped.
 
 R6.21 does not compare the texts of the two functions.  It evaluates both
 ASTs (rules/_minieval.py; the helpers they call in pytype/pytd/mro.py and in
-their own class are evaluated from their ASTs as well) on every class header
+their own class are evaluated from their ASTs as well, each with the name
+resolution of the module that defines it, so MergeSequences may be split into
+private helpers of mro.py) on every class header
 of a small scope - one or two bases parameterised by one or two of the type
 variables K, V, T in every order, three one-variable bases, and two bases
 over K, V next to a `Generic[...]` base listing the variables in every order -
@@ -30,41 +32,47 @@ MRO = "pytype/pytd/mro.py"
 _TVARS = ("K", "V", "T")
 
 
-def _resolve_module_funcs(ctx, mod, alias):
-  """FunctionDefs of the pytype module that `alias` names in `mod`."""
+def _resolve_module(ctx, mod, alias):
+  """The pytype module (PyModule) that `alias` names in `mod`."""
   target = mod.imports.get(alias)
   if not target or not target.startswith("pytype."):
     return None
   rel = target.replace(".", "/") + ".py"
   if not ctx.exists(rel):
     return None
-  return get_module(ctx, rel).functions
+  return get_module(ctx, rel)
 
 
-def _make_resolver(ctx, mod, extra):
-  """Calls of `<imported pytype module>.<function>` are evaluated from that
-  function's AST; `extra` maps further dotted names to Python callables."""
-  state = {}
+def _make_resolver(ctx, mod, extra, _cache=None):
+  """Calls of `<imported pytype module>.<function>` and of helpers defined in
+  the same module are evaluated from that function's AST; a function is
+  evaluated with the resolver of the module that defines it, so the private
+  helpers it calls by bare name (mro.MergeSequences -> _PickSequence) are
+  found where Python would find them.  `extra` maps further dotted names to
+  Python callables."""
+  cache = {} if _cache is None else _cache
+  if mod.rel in cache:
+    return cache[mod.rel]
 
   def resolver(name, args, kw):
     if name in extra:
       return extra[name](*args, **kw)
     head, _, fname = name.rpartition(".")
     if not head and fname in mod.functions and "." not in fname:
-      funcs = mod.functions          # a helper defined in the same module
+      home = mod                     # a helper defined in the same module
     elif head and "." not in head:
-      funcs = _resolve_module_funcs(ctx, mod, head)
+      home = _resolve_module(ctx, mod, head)
     else:
-      funcs = None
-    if funcs is not None and fname in funcs:
-      fn = funcs[fname]
+      home = None
+    if home is not None and fname in home.functions:
+      fn = home.functions[fname]
       params = [p.arg for p in fn.args.posonlyargs + fn.args.args]
       if len(args) > len(params):
         raise me.Outside(f"call of {name}")
-      it = me.Interp(fn, resolver=state["resolver"])
+      it = me.Interp(fn, resolver=_make_resolver(ctx, home, extra, cache))
       return it.call({**dict(zip(params, args)), **kw})
     return NotImplemented
-  state["resolver"] = resolver
+  cache[mod.rel] = resolver
   return resolver
 
 
@@ -273,6 +281,14 @@ VARIANTS = [
             "      template = mro.MergeSequences(merged)\n"
             "    except ValueError:\n"
             "      raise ContainerError(\"Illegal type parameter order in class \" + node.name)\n"},
+    # mro.MergeSequences split into private helpers (_PickSequence/_InOtherTail,
+    # `while any(seqs)`): helpers are resolved in the module that defines them
+    {"name": "twin-benign-C10-r1-MergeSequences-split-into-helpers", "rule": "R6.21",
+     "patch": "benign/C10-r1/patch.diff", "expect": "silent"},
+    {"name": "C10-r1+analyser-merges-bases-right-to-left", "rule": "R6.21",
+     "patch": "benign/C10-r1/defect_analyser_merges_right_to_left.diff", "expect": "fire"},
+    {"name": "C10-r1+reader-collects-bases-in-reverse", "rule": "R6.21",
+     "patch": "benign/C10-r1/defect_reader_collects_in_reverse.diff", "expect": "fire"},
     {"name": "twin-analyser-builds-seqs-with-comprehension", "rule": "R6.21", "file": BASE,
      "expect": "silent",
      "old": "      template.extend(mro.MergeSequences(seqs))",
